@@ -10,6 +10,9 @@ from ..core import HarnessError
 ID = 'C08'
 TITLE = 'timeseries operators = pointwise operation on aligned operands'
 LEVEL = 'exploration'
+TECHNIQUE = 'runtime monitoring: alignment model + pointwise float arithmetic (same numpy float64 operations, exact comparison), commutativity and no-inf law monitors'
+LEVEL_TEXT = 'Held on the operand tuples explored for both index and column policies and all listed operators/aggregates. A check says held on K observed executions, never verified.'
+LEVEL_NOTE = "Trusted: numpy float64 scalar arithmetic as the pointwise reference; fill methods are C03's; one-column frames are not fed to min_/max_."
 RULE = ('random tuples of 2-4 operands among Series, 1-3 column DataFrames and scalars on a 12-day grid (overlapping, disjoint, empty indices; values in {-2..3, 0, NaN}), both index '
         'policies x both column policies, operators add/sub/mul/div/pow/gt/ge/lt/le/min/max and df_sum/df_mean/df_count; non-trivial = partially overlapping indices with a zero or NaN in '
         'the overlap, or differing column sets; distinct = canonical hash')
